@@ -14,7 +14,7 @@
  *     Every case runs in a forked child too (E_FATAL/assert/sanitizer => "died ...").
  *
  * edits: "-" none | "x" file missing | comma list of  t<len> (truncate)  w<off>:<hex32> (little-endian store)
- *        b<off>:<hex8> (byte store)
+ *        b<off>:<hex8> (byte store)  p<len> (pad with zero bytes up to len)
  */
 #define _GNU_SOURCE
 #include "common.h"
@@ -149,6 +149,55 @@ void __wrap_ckd_free_3d(void *p)
 }
 void __wrap_ckd_free_4d(void *p) { tr_free(p, 0); __real_ckd_free_4d(p); }
 
+/* ------------------------------------------------------------------ mapping ledger (mmio.c)
+ * The harness is also linked with -Wl,--wrap=mmap,--wrap=munmap: every mapping the library creates is entered
+ * into a table (address, length asked for), every munmap(addr, len) must name a live mapping by its address
+ * and release exactly the pages that mapping holds (ceil(len/page) == ceil(mapped/page)).  A release that does
+ * not is reported at once (" mmbad=<mapped>/<unmapped>/<known>", the child may not survive it); the pairs
+ * (mapped, unmapped) of the clean releases and the number of mappings still live are printed at the end. */
+#include <sys/mman.h>
+void *__real_mmap(void *, size_t, int, int, int, off_t);
+int __real_munmap(void *, size_t);
+static void emit(const char *fmt, ...);
+#define MM_MAX 64
+static struct { char *addr; size_t len; } g_mm[MM_MAX];
+static int g_mm_n, g_mm_bad, g_mm_maps;
+static char g_mm_pairs[700];
+static size_t g_mm_plen;
+static size_t mm_pages(size_t len)
+{
+    size_t pg = (size_t)sysconf(_SC_PAGESIZE);
+    return (len + pg - 1) / pg;
+}
+void *__wrap_mmap(void *a, size_t len, int prot, int flags, int fd, off_t off)
+{
+    void *p = __real_mmap(a, len, prot, flags, fd, off);
+    if (p != MAP_FAILED) {
+        g_mm_maps++;
+        if (g_mm_n < MM_MAX) { g_mm[g_mm_n].addr = (char *)p; g_mm[g_mm_n].len = len; g_mm_n++; }
+    }
+    return p;
+}
+int __wrap_munmap(void *a, size_t len)
+{
+    int i, k = -1;
+    for (i = 0; i < g_mm_n; i++)
+        if (g_mm[i].addr == (char *)a) k = i;
+    if (k < 0 || mm_pages(len) != mm_pages(g_mm[k].len)) {
+        g_mm_bad++;
+        emit(" mmbad=%lu/%lu/%d", (unsigned long)(k < 0 ? 0 : g_mm[k].len), (unsigned long)len, k < 0 ? 0 : 1);
+    } else if (g_mm_plen < sizeof(g_mm_pairs) - 48) {
+        g_mm_plen += snprintf(g_mm_pairs + g_mm_plen, sizeof(g_mm_pairs) - g_mm_plen, "%s%lu:%lu", g_mm_plen ? "," : "",
+                              (unsigned long)g_mm[k].len, (unsigned long)len);
+    }
+    if (k >= 0) { g_mm[k] = g_mm[g_mm_n - 1]; g_mm_n--; }
+    return __real_munmap(a, len);
+}
+static void mm_report(void)
+{
+    emit(" page=%ld mmaps=%d mmlive=%d mm=%s", sysconf(_SC_PAGESIZE), g_mm_maps, g_mm_n, g_mm_plen ? g_mm_pairs : "-");
+}
+
 /* ------------------------------------------------------------------ utilities */
 
 static unsigned char *read_whole(const char *path, size_t *len)
@@ -190,6 +239,8 @@ static int apply_edits(unsigned char **pb, size_t *plen, const char *edits)
         }
         if (k == 't') {
             if (a < len) len = a;
+        } else if (k == 'p') {      /* pad with zero bytes up to length a */
+            if (a > len && a < ((size_t)1 << 28)) { b = (unsigned char *)realloc(b, a); memset(b + len, 0, a - len); len = a; *pb = b; }
         } else if (k == 'w') {
             if (a + 4 <= len) { b[a] = v & 255; b[a + 1] = (v >> 8) & 255; b[a + 2] = (v >> 16) & 255; b[a + 3] = (v >> 24) & 255; }
         } else if (k == 'b') {
@@ -351,11 +402,29 @@ static void release_held(void)
     while (held) { held_t *n = held->next; free(held->p); free(held); held = n; }
 }
 
+/* configuration overrides of the current fault: "-" or "key=value,key=value" (documented flags: cionly, topn, ds,
+ * compallsen, mmap, ...), applied to the damaged and to the intact load alike */
+static const char *g_cfg = "-";
+static int g_cfg_bad;
+static void apply_cfg(config_t *c)
+{
+    char buf[512], *kv, *save = NULL;
+    if (!g_cfg || !strcmp(g_cfg, "-")) return;
+    snprintf(buf, sizeof(buf), "%s", g_cfg);
+    for (kv = strtok_r(buf, ",", &save); kv; kv = strtok_r(NULL, ",", &save)) {
+        char *eq = strchr(kv, '=');
+        if (!eq) { g_cfg_bad++; continue; }
+        *eq = 0;
+        if (config_set_str(c, kv, eq + 1) == NULL) g_cfg_bad++;
+    }
+}
+
 static config_t *make_config(const char *dir)
 {
     config_t *c = config_init(NULL);
     config_set_str(c, "hmm", dir);
     config_set_str(c, "loglevel", "ERROR");
+    apply_cfg(c);
     if (g_dict && strcmp(g_dict, "-")) config_set_str(c, "dict", g_dict);
     if (g_fdict && strcmp(g_fdict, "-")) config_set_str(c, "fdict", g_fdict);
     return c;
@@ -504,6 +573,8 @@ static void dec_child(void *arg)
     emit(" intact=%s", d ? "acc" : "rej");
     if (d) decoder_free(d);
     release_held();
+    emit(" cfg=%s cfgbad=%d", g_cfg, g_cfg_bad);
+    mm_report();
 }
 
 /* all input is read before the first fork (a child that exits must not move the shared stdin offset) */
@@ -537,8 +608,9 @@ static int dec_main(int argc, char **argv)
         size_t len = 0;
         int miss;
         char src[2048];
-        if (n != 4) { printf("bad-op\n"); fflush(stdout); continue; }
+        if (n != 4 && n != 5) { printf("bad-op\n"); fflush(stdout); continue; }
         f.mode = w[1]; f.file = w[2]; f.edits = w[3];
+        g_cfg = n == 5 ? w[4] : "-";
         snprintf(path, sizeof(path), "%s/%s", g_work, f.file);
         snprintf(src, sizeof(src), "%s/%s", g_pristine, f.file);
         b = read_whole(src, &len);
@@ -586,6 +658,7 @@ static void leak_suffix(void)
         emit(" | leak=%d site=%s", __lsan_do_recoverable_leak_check() ? 1 : 0, first_err[0] ? first_err : "-");
     else
         emit(" | leak=na site=%s", first_err[0] ? first_err : "-");
+    if (g_mm_maps || g_mm_bad) mm_report();
     if (g_trace_len) {
         if (write(out_fd, " trace=", 7) < 0 || write(out_fd, g_trace, g_trace_len) < 0) { }
     }
@@ -798,6 +871,33 @@ static void s3_child(void *arg)
             emit(" ok %d %d %d %d %d %d %d %d %d %d %ld %ld %ld %u %u", m->alloc_mode == BIN_MDEF_IN_MEMORY ? 1 : 0,
                  m->n_ciphone, m->n_phone, m->n_emit_state, m->n_ci_sen, m->n_sen, m->n_tmat, m->n_sseq, m->n_cd_tree,
                  m->sil, (long)((char *)m->cd_tree - m->ciname[0]), (long)((char *)m->phone - m->ciname[0]),
+                 (long)((char *)m->sseq[0] - m->ciname[0]), h1, h2);
+        }
+        bin_mdef_free(m);
+        s3file_free(s);
+    } else if (n == 5 && !strcmp(w[1], "mdefc")) {
+        /* bin_mdef_read_s3file with the documented flag cionly = w[4]; same line as `mdef`, the cd_tree offset is -1
+         * when the pointer is NULL */
+        s3file_t *s;
+        bin_mdef_t *m;
+        int cionly = atoi(w[4]);
+        if ((b = load_src(w[2], w[3], &len)) == NULL) { emit(" bad-src"); return; }
+        s = s3file_init(b, len);
+        trace_start();
+        m = bin_mdef_read_s3file(s, cionly);
+        trace_stop();
+        if (m == NULL)
+            emit(" rej");
+        else {
+            unsigned h1 = 7, h2 = 7;
+            int i;
+            for (i = 0; i < m->n_sen; i++) {
+                h1 = h1 * 31u + (unsigned)(uint16)m->cd2cisen[i];
+                h2 = h2 * 31u + (unsigned)(uint16)m->sen2cimap[i];
+            }
+            emit(" ok %d %d %d %d %d %d %d %d %d %d %ld %ld %ld %u %u", m->alloc_mode == BIN_MDEF_IN_MEMORY ? 1 : 0,
+                 m->n_ciphone, m->n_phone, m->n_emit_state, m->n_ci_sen, m->n_sen, m->n_tmat, m->n_sseq, m->n_cd_tree,
+                 m->sil, m->cd_tree ? (long)((char *)m->cd_tree - m->ciname[0]) : -1L, (long)((char *)m->phone - m->ciname[0]),
                  (long)((char *)m->sseq[0] - m->ciname[0]), h1, h2);
         }
         bin_mdef_free(m);
